@@ -234,6 +234,16 @@ pub fn analyze_s<M: Mask>(info: &Info<M>, cfg: &RunCfg, res: &RunRes, out: &mut 
         }
     }
     let limited = concurrent && cfg.limit.map(|l| l >= 1).unwrap_or(false);
+    // a call that does not return also breaks the "returns Err/Break" clause of C07 when a
+    // function failed, and the "the call returns" clause of C08 when a signal was sent
+    let no_return = |out: &mut Vec<Viol>, how: &str| {
+        if started.intersects(&fail_mask) {
+            v(out, 7, format!("the call does not return after functions {:?} failed ({how})", started.and(&fail_mask).list()));
+        }
+        if int_at.is_some() {
+            v(out, 8, format!("the call does not return after the interrupt signal ({how})"));
+        }
+    };
     match &res.status {
         Status::Returned => {}
         Status::Deadlock => {
@@ -241,6 +251,7 @@ pub fn analyze_s<M: Mask>(info: &Info<M>, cfg: &RunCfg, res: &RunRes, out: &mut 
             if limited {
                 v(out, 10, format!("limit {:?} blocks completion (deadlock)", cfg.limit));
             }
+            no_return(out, "deadlock");
             return f;
         }
         Status::Livelock => {
@@ -248,10 +259,12 @@ pub fn analyze_s<M: Mask>(info: &Info<M>, cfg: &RunCfg, res: &RunRes, out: &mut 
             if limited {
                 v(out, 10, format!("limit {:?} blocks completion (livelock)", cfg.limit));
             }
+            no_return(out, "livelock");
             return f;
         }
         Status::Panic(m) => {
             v(out, 4, format!("panic: {m}"));
+            no_return(out, "panic");
             return f;
         }
         Status::Aborted => return f,
